@@ -46,17 +46,36 @@ def assign_event(c, unit, accumulate):
         th = [t * q for t in th_units]
         zs = [z * q for z in heights]
     ev = {"k": "assign", "case": c, "unit": str(unit), "accumulate": accumulate, "raised": False, "th": th_units, "height": c["height"],
-          "z": heights, "found": [[] for _ in heights], "reported_ok": True}
+          "z": heights, "found": [[] for _ in heights], "reported_ok": True, "near_z": [], "near_found": []}
     try:
         xs = [0.2 + 0.9 * (i % 6) for i in range(len(zs))]
         ys = [0.3 + 0.8 * (i // 6) for i in range(len(zs))]
-        atoms = Atoms("C" * len(zs), positions=list(zip(xs, ys, zs)), cell=(LATERAL, LATERAL, float(np.sum(th))), pbc=True)
+        # atoms a hair below every slice boundary and the top face, one given as z = -eps (wraps to the top), two beside lateral faces
+        H = float(np.sum(th))
+        eps = 1e-9
+        edges, acc = [], 0
+        for t in th_units:
+            acc += t
+            edges.append(acc)
+        near = [(0.25 + 0.7 * (j % 8), 4.1 + 0.6 * (j // 8), float(np.sum(th[: j + 1])) - eps, e) for j, e in enumerate(edges)]
+        near.append((5.3, 5.3, -eps, edges[-1]))
+        near.append((LATERAL - eps, 3.3, float(np.sum(th[:1])) - eps, edges[0]))
+        near.append((2.9, LATERAL - eps, H - eps, edges[-1]))
+        ev["near_z"] = [int(e) for *_xyz, e in near]
+        ev["near_found"] = [[] for _ in near]
+        atoms = Atoms("C" * (len(zs) + len(near)), positions=list(zip(xs, ys, zs)) + [(x, y, z) for x, y, z, _e in near],
+                      cell=(LATERAL, LATERAL, H), pbc=True)
         pot = abtem.Potential(atoms, gpts=8, slice_thickness=tuple(th), projection="infinite")
         ev["reported_ok"] = bool(len(pot.slice_thickness) == len(th) and abs(sum(pot.slice_thickness) - atoms.cell[2, 2]) < 1e-9)
         sl = pot.get_sliced_atoms()
         for k in range(len(th)):
             a = sl.get_atoms_in_slices(k)
             for p in a.positions:
+                hit = [j for j, (x, y, _z, _e) in enumerate(near)
+                       if min(abs(p[0] - x), LATERAL - abs(p[0] - x)) < 1e-6 and min(abs(p[1] - y), LATERAL - abs(p[1] - y)) < 1e-6]
+                if hit:
+                    ev["near_found"][hit[0]].append(k + 1)
+                    continue
                 i = int(round((p[0] - 0.2) / 0.9)) + 6 * int(round((p[1] - 0.3) / 0.8))
                 if 0 <= i < len(zs):
                     ev["found"][i].append(k + 1)
@@ -191,7 +210,7 @@ def judge(ctx: Ctx, evs):
 
 
 def self_test(ctx: Ctx):
-    good = {"k": "assign", "raised": False, "th": [2, 4], "height": 6, "z": [0, 1, 2, 3, 4, 5], "found": [[1], [1], [2], [2], [2], [2]], "reported_ok": True}
+    good = {"k": "assign", "raised": False, "th": [2, 4], "height": 6, "z": [0, 1, 2, 3, 4, 5], "found": [[1], [1], [2], [2], [2], [2]], "reported_ok": True, "near_z": [2, 6, 6], "near_found": [[1], [2], [2]]}
     b1 = dict(good, found=[[1], [1], [1], [2], [2], [2]])            # boundary atom in the lower slice
     b2 = dict(good, found=[[1], [1], [2], [2], [2], []])             # an atom lost
     b3 = dict(good, found=[[1], [1], [1, 2], [2], [2], [2]])         # an atom twice
